@@ -9,7 +9,7 @@ and across formats, two serializations of one tree, interface hash of the real w
 of the contract's bytes; plus flag vectors over the classes' own flag tables on real nodes.
 
 Workload: the import closure of builtins (cold, both formats), stdlib modules of the bundled typeshed,
-multi-file programs of the repository corpus, and a generated package that makes the analyser produce
+multi-file programs of the repository corpus, histgen projects, and a generated package that makes the analyser produce
 every node kind / flag / Type subclass reachable from source (vlib/c11_gen.py).
 """
 
@@ -67,7 +67,7 @@ def stdlib_modules(pyver: tuple[int, int] = (3, 12)) -> list[str]:
     return sorted(mods)
 
 
-def gen_tasks(ctx: common.Ctx, n_std: int | None, n_corpus: int, n_gen: int, flips: int) -> Iterator[dict[str, Any]]:
+def gen_tasks(ctx: common.Ctx, n_std: int | None, n_corpus: int, n_gen: int, flips: int, n_hist: int = 0) -> Iterator[dict[str, Any]]:
     # (A) builtins closure, cold, in each format (the longest tasks first)
     for ff in (True, False):
         yield {"fn": TASK, "args": {"files": {"verif_seed_mod.py": SEED_MOD}, "args": ["verif_seed_mod.py"], "cold": True,
@@ -81,6 +81,15 @@ def gen_tasks(ctx: common.Ctx, n_std: int | None, n_corpus: int, n_gen: int, fli
         yield {"fn": TASK, "args": {"files": files, "args": [*flags, "c11main.py", "c11pep695.py", "c11pkg", "c11stub.pyi"],
                                     "cold": False, "ff": v % 2 == 0, "flips": flips, "scope": "user", "base_flags": flags},
                "_kind": "generated", "_name": f"generated:{v}"}
+    # (E) histgen projects (3-7 modules, packages, stubs, cycles): first and last version of each history
+    from vlib import histgen
+    for k in range(n_hist):
+        r = common.rng_for("C11", "hist", k)
+        h = histgen.history(("C11", ctx.seed, k), n_steps=4, n_modules=r.randint(3, 7))
+        for vi in (0, len(h["versions"]) - 1):
+            yield {"fn": TASK, "args": {"files": h["versions"][vi], "args": ["main.py"], "cold": False, "ff": (k + vi) % 2 == 0,
+                                        "flips": flips if k % 3 == 0 else 0, "scope": "user", "base_flags": []},
+                   "_kind": "histgen", "_name": f"histgen:{k}:v{vi}"}
     # (B) stdlib modules against a warm typeshed-only base cache (their dependencies come lazily from the cache)
     mods = stdlib_modules()
     rng = common.rng_for("C11", "stdlib")
@@ -191,7 +200,9 @@ def run(ctx: common.Ctx) -> None:
     scale = float(os.environ.get("VERIF_SCALE", "1"))
     n_std: int | None
     n_std, n_corpus, n_gen, flips = (90, 450, 4, 2) if quick else (None, 100000, 16, 4)
+    n_hist = 40 if quick else 600
     if scale != 1:
+        n_hist = max(2, int(n_hist * scale))
         n_std = max(3, int((n_std if n_std is not None else 800) * scale))
         n_corpus = max(4, int(min(n_corpus, 6000) * scale))
         n_gen = max(1, int(n_gen * scale))
@@ -214,10 +225,21 @@ def run(ctx: common.Ctx) -> None:
     n_tasks = 0
     mods_seen = 0
     type_cells: set[str] = set()
+    built: dict[tuple[str, str], dict[str, Any]] = {}   # (module id, path) -> bytes of its first build, for cross-build determinism
     with common.workdir("C11") as wd:
         env = common.base_env(VERIF_POOL_ROOT=wd)
+        want_librt = os.environ.get("VERIF_C11_LIBRT", "installed" if quick else "repo")
+        librt_dir = build_repo_librt(wd) if want_librt == "repo" else None
+        if librt_dir:
+            env["PYTHONPATH"] = librt_dir + os.pathsep + env["PYTHONPATH"]
+            ctx.assumptions.append("librt.internal built from the repository's mypyc/lib-rt sources with the repository's recipe "
+                                   "(mypyc.test.librt_cache) and put first on the workers' path")
+        else:
+            ctx.assumptions.append("librt.internal is the installed wheel (an edit of mypyc/lib-rt/internal/librt_internal.c is not seen"
+                                   + ("; repository build failed, see extra.librt_build_error)" if want_librt == "repo" else " in this tier)"))
+        ctx.extra["librt"] = librt_dir or "installed"
         with Pool(env=env, recycle_after=60) as pool:
-            for t, r in pool.imap(gen_tasks(ctx, n_std, n_corpus, n_gen, flips), timeout=600):
+            for t, r in pool.imap(gen_tasks(ctx, n_std, n_corpus, n_gen, flips, n_hist), timeout=600):
                 n_tasks += 1
                 kind = t["_kind"]
                 if not r.get("ok"):
@@ -260,6 +282,22 @@ def run(ctx: common.Ctx) -> None:
                     full = len(rec.get("diffs") or {}) == 3
                     if rec.get("symbols", 0) > 0 and full:
                         ctx.nontriv(rec["id"], (rec.get("bytes") or {}).get("binary", {}).get("sha"))
+                    if kind in ("stdlib", "closure") and rec.get("path") and os.path.isabs(str(rec["path"])):
+                        # the same typeshed module written by two different builds (other process, other import order, other
+                        # dependencies cached): equal interface => equal bytes
+                        prev = built.setdefault((rec["id"], rec["path"]), {"bytes": rec.get("bytes"), "task": t["_name"],
+                                                                           "build_format": rec.get("own")})
+                        if prev["task"] != t["_name"]:
+                            ctx.count()
+                            ctx.cell("cross-build-byte-comparisons")
+                            for fmt in ("binary", "json"):
+                                a, b = (prev["bytes"] or {}).get(fmt), (rec.get("bytes") or {}).get(fmt)
+                                if a and b and a != b:
+                                    ctx.violation(f"bytes:same-module-two-builds-differ:{fmt}",
+                                                  f"two builds of the same typeshed module serialize to different {fmt} bytes [module {rec['id']}]",
+                                                  {"module": rec["id"], "path": rec["path"], "first": prev, "second":
+                                                   {"bytes": rec.get("bytes"), "task": t["_name"], "build_format": rec.get("own")},
+                                                   "task": strip(t)})
                     finds = record_findings(rec)
                     for key, what, detail in finds:
                         ctx.violation(key, f"{what} [module {rec['id']}]",
@@ -279,6 +317,25 @@ def run(ctx: common.Ctx) -> None:
     else:
         ctx.floor_nontrivial = int(1500 * min(1.0, scale))
         ctx.floor_evaluations = int(25000 * min(1.0, scale))
+
+
+def build_repo_librt(wd: str) -> str | None:
+    """librt built from the working tree's mypyc/lib-rt with the repository's own recipe, outside the repository."""
+    import subprocess
+    code = ("import sys, mypyc.test.librt_cache as L\n"
+            f"L.PREFIX = {wd!r}\n"
+            "print('LIBRT_DIR=' + L.get_librt_path(opt_level='2'))\n")
+    try:
+        p = subprocess.run([common.PY, "-c", code], env=common.base_env(), capture_output=True, text=True, timeout=900,
+                           cwd=wd, stdin=subprocess.DEVNULL)
+    except Exception:
+        return None
+    for ln in p.stdout.splitlines():
+        if ln.startswith("LIBRT_DIR="):
+            d = ln.split("=", 1)[1]
+            if os.path.isdir(os.path.join(d, "librt")):
+                return d
+    return None
 
 
 # Type subclasses with a binary tag in mypy/types.py that may appear in a cache data file
